@@ -792,7 +792,15 @@ func (f *Frame) havocRegions(mem MemState, regs []region, all bool) MemState {
 		f.havocMaps(&out, limit)
 		return out
 	}
+	mapsDone := false
 	for _, r := range regs {
+		if r.isMap && !mapsDone {
+			// (coarser than needed: the content and length of every map that exists now)
+			mapsDone = true
+			limit := f.tb().BVU(32, uint64(freshBase+f.u.objCtr+1))
+			f.havocMaps(&out, limit)
+			out.m[mapLenKey] = f.u.mc.HavocObjs(out.m[mapLenKey], limit, f.u.mc.NewBase("hvml", BV64, f.havocBound()))
+		}
 		for _, s := range r.sorts {
 			k := s.Key()
 			fresh := f.u.mc.NewBase("hv", s, f.havocBound())
@@ -817,6 +825,10 @@ func (f *Frame) regionOf(t types.Type, v []*Term) (region, bool) {
 	case *types.Slice:
 		es := L.Size(ut.Elem())
 		return region{obj: v[0], lo: v[1], hi: tb.Add(v[1], tb.Mul(v[2], tb.BV(64, es))), sorts: L.ElemSorts(ut.Elem()), cond: f.cur.reach}, true
+	case *types.Map:
+		// a map in an assigns clause: its entries (the writes to a map are checked as writes to
+		// slot 0 of the map object)
+		return region{obj: v[0], lo: tb.BV(64, 0), hi: tb.BV(64, 1), cond: f.cur.reach, isMap: true}, true
 	}
 	return region{}, false
 }
